@@ -29,6 +29,16 @@ TEXT_FIELDS_EXCLUDED = ("comment", "comments")
 MAX_DEPTH = 40
 
 
+SCRATCH_ROOT = [None]   # set by the session: the per-run scratch directory name is not part of any value
+
+
+def _unroot(text):
+    r = SCRATCH_ROOT[0]
+    if r and r in text:
+        return text.replace(r, "<root>")
+    return text
+
+
 def fbits(x) -> str:
     x = float(x)
     if x != x:
@@ -51,11 +61,11 @@ def canon(obj, numeric=False, _depth=0):
     if isinstance(obj, complex):
         return {"z": [fbits(obj.real), fbits(obj.imag)]}
     if isinstance(obj, str):
-        return {"s": obj}
+        return {"s": _unroot(obj)}
     if isinstance(obj, bytes):
         return {"b": obj.hex()}
     if isinstance(obj, PurePath):
-        return {"s": str(obj)}
+        return {"s": _unroot(str(obj))}
     if isinstance(obj, numpy.ndarray):
         if obj.ndim == 0:
             return canon(obj.item(), numeric, d)
